@@ -51,6 +51,15 @@ Proof.
 Qed.
 End Search.
 
+(* sort.Search only applies its argument: pointwise equal closures give equal results *)
+Lemma sort_search_ext (f f' : Z -> result bool) n : (forall i, f i = f' i) -> sort_search n f = sort_search n f'.
+Proof.
+  intros E. unfold sort_search. generalize (Z.to_nat n). intros fuel. generalize 0 n.
+  induction fuel as [|fuel IH]; intros i j; cbn [sort_search_loop]; [reflexivity|].
+  destruct (i <? j); [|reflexivity]. rewrite E. destruct (f' ((i + j) / 2)) as [b|k]; cbn [bind]; [|reflexivity].
+  destruct (negb b); apply IH.
+Qed.
+
 Local Close Scope Z_scope.
 
 (* ---- orders ---- *)
@@ -375,3 +384,89 @@ Proof.
   - rewrite <- P. apply isort_perm.
   - intros a. rewrite F, isort_stable; auto.
 Qed.
+
+(* ---- lower bounds on sorted lists (sort.Search over a slice) ---- *)
+Lemma StronglySorted_nth {A} (R : A -> A -> Prop) (l : list A) : StronglySorted R l ->
+  forall i j x y, i < j -> nth_error l i = Some x -> nth_error l j = Some y -> R x y.
+Proof.
+  induction 1 as [|x0 t Hs IH Hall]; intros i j x y Hij Hi Hj.
+  - destruct i; discriminate.
+  - destruct j as [|j]; [lia|]. destruct i as [|i].
+    + cbn in Hi, Hj. injection Hi as <-. rewrite Forall_forall in Hall. apply Hall.
+      eapply nth_error_In; eassumption.
+    + cbn in Hi, Hj. apply (IH i j); auto; lia.
+Qed.
+
+(* sort.Search over the elements of a slice, with a predicate that, once true, stays true *)
+Lemma search_list_spec {A} (p : A -> bool) (l : list A) :
+  (forall i j x y, i <= j -> nth_error l i = Some x -> nth_error l j = Some y -> p x = true -> p y = true) ->
+  exists r, sort_search (lenZ l) (fun i => do x <- getZ l i; Ok (p x)) = Ok (Z.of_nat r) /\ partition_point p l r.
+Proof.
+  intros Hmono.
+  set (g := fun k : Z => match nth_error l (Z.to_nat k) with Some x => p x | None => true end).
+  destruct (sort_search_lower_bound (fun i => do x <- getZ l i; Ok (p x)) g (lenZ l)) as (r & Er & Hr & H1 & H2).
+  - intros h Hh. unfold lenZ in Hh.
+    destruct (nth_error l (Z.to_nat h)) as [x|] eqn:Ex.
+    + replace h with (Z.of_nat (Z.to_nat h)) at 1 by lia. rewrite (getZ_ok _ _ _ Ex). unfold g. rewrite Ex. reflexivity.
+    + apply nth_error_None in Ex. lia.
+  - intros a b Hab Hb. unfold g, lenZ in *.
+    destruct (nth_error l (Z.to_nat a)) as [x|] eqn:Ea; [|apply nth_error_None in Ea; lia].
+    destruct (nth_error l (Z.to_nat b)) as [y|] eqn:Eb; [|reflexivity].
+    apply (Hmono (Z.to_nat a) (Z.to_nat b)); auto; lia.
+  - unfold lenZ. lia.
+  - exists (Z.to_nat r). rewrite Z2Nat.id by lia. split; [exact Er|]. unfold lenZ in Hr. repeat split.
+    + lia.
+    + intros k x Hk Hx. specialize (H1 (Z.of_nat k)). unfold g in H1. rewrite Nat2Z.id, Hx in H1. apply H1. lia.
+    + intros k x Hk Hx. assert (k < length l) by (apply nth_error_Some; congruence).
+      specialize (H2 (Z.of_nat k)). unfold g in H2. rewrite Nat2Z.id, Hx in H2. apply H2. unfold lenZ. lia.
+Qed.
+
+Section LowerBound.
+Context {A : Type} (less : A -> A -> bool).
+
+(* the predicate Sorted.search and BinarySearch hand to sort.Search, on the elements *)
+Definition not_less_than (v x : A) : bool := negb (less x v).
+
+Lemma not_less_than_mono : StrictWeakOrder less -> forall l, Sorted (le_of less) l -> forall v a b x y,
+  a <= b -> nth_error l a = Some x -> nth_error l b = Some y ->
+  not_less_than v x = true -> not_less_than v y = true.
+Proof.
+  intros W l Hs v a b x y Hab Ha Hb Hx. destruct (Nat.eq_dec a b) as [->|Hne]; [congruence|].
+  assert (Hxy : le_of less x y).
+  { apply (StronglySorted_nth _ l (sorted_strongly less W l Hs) a b); auto; lia. }
+  unfold not_less_than, le_of in *. apply negb_true_iff in Hx. apply negb_true_iff.
+  destruct (less y v) eqn:E; [|reflexivity]. destruct (swo_negtrans less W y x v E); congruence.
+Qed.
+
+(* under a strict total order the lower bound of v is the first occurrence of v, if there is one *)
+Lemma lower_bound_first : StrictTotalOrder less -> forall l v r,
+  Sorted (le_of less) l -> partition_point (not_less_than v) l r ->
+  (forall k, k < r -> nth_error l k <> Some v) /\ (In v l -> nth_error l r = Some v) /\
+  (nth_error l r <> Some v -> ~ In v l).
+Proof.
+  intros TO l v r Hs (Hr & Hlo & Hhi). pose proof (sto_swo less TO) as W.
+  assert (Hfirst : forall k, k < r -> nth_error l k <> Some v).
+  { intros k Hk Hv. specialize (Hlo k v Hk Hv). unfold not_less_than in Hlo.
+    rewrite (sto_irrefl less TO) in Hlo. discriminate. }
+  assert (Hpres : In v l -> nth_error l r = Some v).
+  { intros Hin. destruct (In_nth_error _ _ Hin) as [k Hk].
+    destruct (Nat.lt_trichotomy k r) as [Hlt|[->|Hgt]]; [destruct (Hfirst k Hlt Hk)|exact Hk|].
+    destruct (nth_error l r) as [x|] eqn:Ex.
+    - specialize (Hhi r x (le_n _) Ex). unfold not_less_than in Hhi. apply negb_true_iff in Hhi.
+      assert (Hxv : le_of less x v).
+      { apply (StronglySorted_nth _ l (sorted_strongly less W l Hs) r k); auto. }
+      f_equal. apply (sto_total less TO); assumption.
+    - apply nth_error_None in Ex. assert (k < length l) by (apply nth_error_Some; congruence). lia. }
+  split; [exact Hfirst|]. split; [exact Hpres|]. intros Hn Hin. exact (Hn (Hpres Hin)).
+Qed.
+End LowerBound.
+
+(* Go's < on int is a strict total order consistent with == *)
+Lemma Z_ltb_sto : StrictTotalOrder Z.ltb.
+Proof.
+  split.
+  - intros a. apply Z.ltb_irrefl.
+  - intros a b c H1 H2. apply Z.ltb_lt in H1, H2. apply Z.ltb_lt. lia.
+  - intros a b H1 H2. apply Z.ltb_ge in H1, H2. lia.
+Qed.
+
